@@ -1,5 +1,7 @@
 import OtelVerif.Common.Line
 import OtelVerif.Model.C11
+import OtelVerif.Model.C11Sys
+import OtelVerif.Model.C11Inst
 import Std.Data.HashSet
 /-! driver for C11: models `c11-reporter` and `c11-shared` -/
 open OtelVerif OtelVerif.Line OtelVerif.C11 OtelVerif.Gen
@@ -177,8 +179,188 @@ def lifeHandler : Handler (List String) where
     | [] => ["prop path=ok"]
     | f :: _ => [s!"prop path=FAIL {f}"]
 
+/-! ## `c11-sys`: a whole service run (extensions, pipeline component instances in start / stop order, shared components with any
+number of instances) through the code-shaped glue model `Sys` of `Model/C11Sys.lean` -/
+
+structure YS where
+  shared : List Script := []
+  exts : List Node := []
+  start : List Node := []
+  stop : List Inst := []
+  names : List (Inst × String) := []
+  impl : List (Inst × List St) := []      -- the implementation's events per instance
+  model : List (Inst × List St) := []
+  allOk : Bool := false
+  bad : Option String := none
+
+def parseScript (rest : List String) : Option Script :=
+  match (kv rest "ds").bind parseCSV, kvNat rest "fs", (kv rest "run").bind parseCSV, (kv rest "dstop").bind parseCSV, kvNat rest "fstop" with
+  | some ds, some fs, some rn, some dstop, some fstop => some ⟨ds, fs = 1, rn, dstop, fstop = 1⟩
+  | _, _, _, _, _ => Option.none
+
+def parseNode (rest : List String) : Option Node :=
+  match kvNat rest "inst", kv rest "kind" with
+  | some i, some "plain" => (parseScript rest).map (fun sc => ⟨i, .plain sc⟩)
+  | some i, some "shared" => (kvNat rest "k").map (fun k => ⟨i, .shared k⟩)
+  | _, _ => Option.none
+
+def sysHandler : Handler YS where
+  init := {}
+  onOp := fun s toks =>
+    match toks with
+    | "shared" :: rest =>
+      match parseScript rest with
+      | some sc => ({ s with shared := s.shared ++ [sc] }, [])
+      | Option.none => (s, ["obs bad-op"])
+    | "ext" :: rest =>
+      match parseNode rest with
+      | some n => ({ s with exts := s.exts ++ [n], names := s.names ++ [(n.inst, (kv rest "name").getD "?")] }, [])
+      | Option.none => (s, ["obs bad-op"])
+    | "node" :: rest =>
+      match parseNode rest with
+      | some n => ({ s with start := s.start ++ [n], names := s.names ++ [(n.inst, (kv rest "name").getD "?")] }, [])
+      | Option.none => (s, ["obs bad-op"])
+    | "stoporder" :: rest =>
+      match rest.mapM String.toNat? with
+      | some l => ({ s with stop := l }, [])
+      | Option.none => (s, ["obs bad-op"])
+    | ["sysrun"] =>
+      match s.stop.mapM (fun i => s.start.find? (fun n => n.inst == i)) with
+      | Option.none => (s, ["obs bad-op"])
+      | some stopNodes =>
+        if stopNodes.length != s.start.length then (s, ["obs bad-op"]) else
+        let sys : Sys := { exts := s.exts, startOrder := s.start, stopOrder := stopNodes, shared := s.shared }
+        let insts := ((s.exts ++ s.start).map (·.inst)).eraseDups.mergeSort (· ≤ ·)
+        let model := insts.map (fun i => (i, sys.events StatusTable.ringCap i))
+        let g0 : GState := { scs := s.shared.map (fun sc => { script := sc }) }
+        let ok := (sys.startLayers StatusTable.ringCap StatusGlue.serviceStart g0).2.2
+        ({ s with model := model, allOk := ok },
+         model.map (fun p => s!"obs events {p.1} {(s.names.lookup p.1).getD "?"} {showCSV p.2}"))
+    | _ => (s, ["obs bad-op"])
+  onObs := fun s toks =>
+    match toks with
+    | [_, "events", i, _, csv] =>
+      match i.toNat?, parseCSV csv with
+      | some i, some evs => { s with impl := s.impl ++ [(i, evs)] }
+      | _, _ => { s with bad := some "unparsable events line" }
+    | _ => s
+  onEnd := fun s =>
+    match s.bad with
+    | some b => [s!"prop path=FAIL sig=C11/sys/unparsable {b}"]
+    | Option.none =>
+    let path :=
+      match s.impl.find? (fun p => !(docPathB .none p.2)) with
+      | some p => s!"prop path=FAIL sig=C11/sys/violates-documented-machine instance={(s.names.lookup p.1).getD "?"} events={showCSV p.2}"
+      | Option.none => "prop path=ok"
+    -- shared delivery, judged on the IMPLEMENTATION's events: after a successful start-up all instances of one shared component
+    -- have been shown the same events until the service starts stopping them one by one
+    let ks := (List.range s.shared.length)
+    let verdicts := ks.filterMap (fun k =>
+      let is := (s.start.filter (fun n => n.kind == .shared k)).map (·.inst)
+      let evs := is.map (fun i => beforeStopping ((s.impl.lookup i).getD []))
+      if !s.allOk || (evs.eraseDups.length ≤ 1) then Option.none
+      else
+        let ds := ((s.shared.getD k {}).duringStart).length
+        if ds + 1 > StatusTable.ringCap && is.all (fun i => s.impl.lookup i == s.model.lookup i) then
+          some s!"prop shared=FAIL sig=C11/sharedcomponent/ring-overflow-after-sticky shared={k} events-before-stopping={evs.map showCSV}"
+        else some s!"prop shared=FAIL sig=C11/sys/shared-instances-shown-different-events shared={k} events-before-stopping={evs.map showCSV}")
+    path :: (if verdicts.isEmpty then ["prop shared=ok"] else verdicts)
+
+/-! ## `c11-sc`: `sharedcomponent.Component` under arbitrary call sequences (`SC.fire`) -/
+
+def showOps (ops : List Op) : String :=
+  if ops.isEmpty then "-" else
+  ",".intercalate (ops.map (fun p => match p.2 with
+    | .status s => s!"{p.1}:{s.toNat}"
+    | .okIfStarting => s!"{p.1}:k"))
+
+structure CS where
+  c : Option SC := Option.none
+  -- for the direct oracle on the IMPLEMENTATION's lines (the statement of `C11_shared_delivers_after_attach`):
+  attached : List Inst := []        -- instances whose Start was called with a reporting host, so far
+  everStarted : Bool := false       -- some Start has been called (the inner component has its host)
+  pending : Option St := Option.none  -- the inner component has just reported this status
+  bad : Option String := Option.none
+
+def scHandler : Handler CS where
+  init := {}
+  onOp := fun s toks =>
+    let line (c : SC) (ops : List Op) (err : Bool) : String :=
+      s!"obs reports {showOps ops} err={if err then 1 else 0} starts={c.innerStarts} stops={c.innerStops}"
+    match toks, s.c with
+    | "script" :: rest, _ =>
+      match parseScript rest with
+      | some sc => ({ s with c := some { script := sc } }, [])
+      | Option.none => (s, ["obs bad-op"])
+    | "start" :: rest, some c =>
+      match kvNat rest "inst", kvNat rest "rep" with
+      | some i, some r =>
+        let x := c.start StatusTable.ringCap i (r = 1)
+        ({ s with c := some x.1, attached := if r = 1 then s.attached ++ [i] else s.attached, everStarted := true, pending := Option.none },
+         [line x.1 x.2.1 x.2.2])
+      | _, _ => (s, ["obs bad-op"])
+    | ["shutdown"], some c =>
+      let x := c.shutdown StatusTable.ringCap
+      ({ s with c := some x.1, pending := Option.none }, [line x.1 x.2.1 x.2.2])
+    | "report" :: rest, some c =>
+      match (kvNat rest "st").bind St.ofNat? with
+      | some e =>
+        let x := c.fire StatusTable.ringCap (.report e)
+        ({ s with c := some x.1, pending := if s.everStarted then some e else Option.none }, [line x.1 x.2 false])
+      | Option.none => (s, ["obs bad-op"])
+    | _, _ => (s, ["obs bad-op"])
+  onObs := fun s toks =>
+    match toks, s.pending with
+    | _ :: "reports" :: csv :: _, some e =>
+      let got := if csv = "-" then [] else csv.splitOn ","
+      match s.attached.find? (fun i => !(got.contains s!"{i}:{e.toNat}")) with
+      | some i => { s with pending := Option.none, bad := s.bad.orElse (fun _ => some s!"instance={i} status={e.toNat} delivered={csv}") }
+      | Option.none => { s with pending := Option.none }
+    | _, _ => s
+  onEnd := fun s =>
+    (match s.bad with
+     | some b => [s!"prop delivery=FAIL sig=C11/sharedcomponent/report-not-delivered-to-an-attached-instance {b}"]
+     | Option.none => ["prop delivery=ok"]) ++
+    (match s.c with
+     | some c => if c.innerStarts ≤ 1 && c.innerStops ≤ 1 then ["prop once=ok"] else ["prop once=FAIL sig=C11/sharedcomponent/model-started-inner-twice"]
+     | Option.none => ["prop once=ok"])
+
+/-! ## `c11-inst`: `componentstatus.InstanceID` -/
+
+structure IS where
+  cur : IID := ⟨0, 0, []⟩
+
+def parseNats (s : String) : Option (List Nat) :=
+  if s = "-" then some [] else (s.splitOn ",").mapM String.toNat?
+
+def showNats (l : List Nat) : String := if l.isEmpty then "-" else ",".intercalate (l.map toString)
+
+def instHandler : Handler IS where
+  init := {}
+  onOp := fun s toks =>
+    match toks with
+    | "new" :: rest =>
+      match (kv rest "pipes").bind parseNats with
+      | some ps => let i := IID.new 0 0 ps; ({ cur := i }, [s!"obs pipes {showNats i.pipes}"])
+      | Option.none => (s, ["obs bad-op"])
+    | "with" :: rest =>
+      match (kv rest "pipes").bind parseNats with
+      | some ps => let i := s.cur.withPipelines ps; ({ cur := i }, [s!"obs pipes {showNats i.pipes}", s!"obs old {showNats s.cur.pipes}"])
+      | Option.none => (s, ["obs bad-op"])
+    | "visit" :: rest =>
+      match kvNat rest "k" with
+      | some k => (s, [s!"obs visited {showNats (s.cur.visit k)}"])
+      | Option.none => (s, ["obs bad-op"])
+    | "alt" :: rest =>
+      match (kv rest "new").bind parseNats, (kv rest "with").bind parseNats with
+      | some a, some b => (s, [s!"obs eq {if (IID.new 0 0 a).withPipelines b = s.cur then 1 else 0}"])
+      | _, _ => (s, ["obs bad-op"])
+    | _ => (s, ["obs bad-op"])
+  onEnd := fun _ => ["prop inst=ok"]
+
 end OtelVerif.Drivers.C11
 
 def main : IO UInt32 :=
   runMulti [("c11-reporter", run OtelVerif.Drivers.C11.repHandler), ("c11-shared", run OtelVerif.Drivers.C11.sharedHandler),
-    ("c11-life", run OtelVerif.Drivers.C11.lifeHandler)]
+    ("c11-life", run OtelVerif.Drivers.C11.lifeHandler), ("c11-sys", run OtelVerif.Drivers.C11.sysHandler),
+    ("c11-inst", run OtelVerif.Drivers.C11.instHandler), ("c11-sc", run OtelVerif.Drivers.C11.scHandler)]
